@@ -604,13 +604,38 @@ def C16(run):
 ITEMS_SRC = ["vh.c", "h_tree.c", "h_gen.c", "h_items.c"]
 
 
+def _sim_histories(run, num, depth=14):
+    """A-direction: behaviours of the bounded CborItems model chosen by TLC's simulator, written as call scripts for h_items."""
+    seed = int(os.environ.get("VERIF_SEED", "1"))
+    st = tlc(run, "Sim_Items", workers=4, simulate="num=%d" % num, timeout=1200, extra=["-depth", str(depth), "-seed", str(seed)], tag="sim")
+    if st["rc"] != 0:
+        raise Infra("Sim_Items simulation failed: " + st["out"][-1500:])
+    seen, path = set(), run.path("items-script.txt")
+    with open(path, "w") as f:
+        for m in re.finditer(r'<<"HIST", "(.*)">>', st["out"]):
+            js = m.group(1).encode().decode("unicode_escape")
+            if js in seen:
+                continue
+            seen.add(js)
+            ops = json.loads(js)
+            f.write(";".join("%s %d %d %d %d %d %d %d %s" % (o["name"], *((list(o["a"]) + [0, 0, 0])[:3]), o["idx"], o["ret"], 1 if o["def"] else 0, o["cap"], o["sub"] or "-")
+                             for o in ops) + "\n")
+    if not seen:
+        raise Infra("Sim_Items produced no behaviours: " + st["out"][-1500:])
+    return path, len(seen)
+
+
 def _items_check(run, judge, cfgs, plans, what):
     mcs = [tlc_mc(run, "MC_Items", c, workers=NCPU, timeout=3000) for c in cfgs]
     lib = build_lib(run, "dbg")
     exe = build_harness(run, lib, "h_items", ITEMS_SRC)
     out = run.path("items.ndjson")
     open(out, "w").close()
+    run.sim_histories = 0
     for args in plans:
+        if args[0] == "sim":
+            spath, run.sim_histories = _sim_histories(run, int(args[1]))
+            args = ["script", spath, "0"]
         part = run.path("items-part.ndjson")
         _record_simple(run, exe, args, part, what)
         with open(out, "ab") as fo, open(part, "rb") as fi:
@@ -644,16 +669,18 @@ def _items_check(run, judge, cfgs, plans, what):
 def C04(run):
     q = run.quick()
     cfgs = ["MC_Items_arr", "MC_Items_map", "MC_Items_tag", "MC_Items_chunk", "MC_Items_copysmall"] + ([] if q else ["MC_Items_copy"])
-    mcs, res, out, n, hist, ops, kinds = _items_check(run, "C04", cfgs, [["hist", "700" if q else "6000", "60" if q else "80"]], "ownership history")
+    mcs, res, out, n, hist, ops, kinds = _items_check(run, "C04", cfgs, [["hist", "700" if q else "6000", "60" if q else "80"], ["sim", "40" if q else "800"]], "ownership history")
     write_evidence(run, "model_checking", {
         "states": sum(m["distinct"] for m in mcs), "transitions": sum(m["generated"] for m in mcs),
         "traces_validated_against_impl": hist - len(res["rejects"]),
         "samples": _sample_lines(out, 2, lambda l: '"MovePush"' in l or '"TagSet"' in l),
         "evaluations": ops, "distinct_nontrivial": kinds, "histories": hist,
+        "spec_behaviours_replayed_on_impl": run.sim_histories,
         "rule": "one case = one history of public API calls following the documented ownership rules over a table of up to 24 client references (new/build of every type, push, move-into-container, set, replace, get, map add, add chunk, tag set/get/build, copy, load, serialize, incref, decref, intermediate decref; shared sub-items; then the client drops every reference); after every call refcounts, contents and the client's reference bag are compared with the specification state by TLC; distinct = distinct sequence of (operation, success); non-trivial = more than two calls",
         "trace_lines_validated_by_TLC": res["lines"], "exhaustive": False},
         ["CborItems (reference-counted object graph with the ghost client bag) is checked exhaustively by TLC on pools of 3-4 items per operation family: RcExact, EdgesLive, FreedOnce, NoLeak hold for every rule-following history within the bound",
          "Trace_Items re-checks every precondition (ownership rules, acyclicity), so a driver mistake is an illegal trace (exit 2), never a verdict",
+         "A-direction: spec/Sim_Items.tla lets TLC's simulator choose behaviours of the bounded model (pool of 5, every operation, pool-id reuse, refusals, out-of-range indexes) and prints them as call scripts; h_items executes each script on the library and Trace_Items compares the state after every call",
          "use after release is observed by ASan; the allocator registry reports foreign or repeated frees"])
 
 
@@ -661,16 +688,18 @@ def C12(run):
     q = run.quick()
     cfgs = ["MC_Items_arr", "MC_Items_map", "MC_Items_chunk"]
     mcs, res, out, n, hist, ops, kinds = _items_check(run, "C12", cfgs,
-        [["hist", "500" if q else "5000", "60" if q else "80", "containers"], ["grow", "40000" if q else "400000", "0"]], "container history")
+        [["hist", "500" if q else "5000", "60" if q else "80", "containers"], ["grow", "40000" if q else "400000", "0"], ["sim", "30" if q else "600"]], "container history")
     write_evidence(run, "model_checking", {
         "states": sum(m["distinct"] for m in mcs), "transitions": sum(m["generated"] for m in mcs),
         "traces_validated_against_impl": hist - len(res["rejects"]),
         "samples": _sample_lines(out, 1, lambda l: '"Set"' in l) + _sample_lines(out, 1, lambda l: '"grow"' in l and '"n":4' in l),
         "evaluations": ops, "distinct_nontrivial": kinds, "histories": hist,
+        "spec_behaviours_replayed_on_impl": run.sim_histories,
         "rule": "one case = one history of push, set, replace, get (indexes 0..size+2), map add and add chunk on definite (capacity 0..8) and indefinite arrays, maps and chunked strings, compared step by step with the abstract sequence by TLC; plus n insertions (n = 0..17, a random n, and %s) into each indefinite kind with capacity logged at every change and reallocations counted by the allocator; distinct = distinct sequence of (operation, success)" % ("40000" if q else "400000"),
         "trace_lines_validated_by_TLC": res["lines"], "exhaustive": False},
         ["MC_Items (arr, map, chunk families) checks SizeWithinCap, refusal at capacity, out-of-range refusal and logarithmic growth exhaustively on the small pool",
          "in conformance the capacity after a growth step is read from the real container: any growth that keeps size <= capacity, never shrinks and stays within the reallocation bound is accepted",
+         "A-direction: behaviours chosen by TLC's simulator from spec/Sim_Items.tla are executed on the library and compared step by step (see C04)",
          "out-of-bounds accesses are observed by ASan"])
 
 
